@@ -58,6 +58,9 @@ type Engine struct {
 	regionAcc     map[string][]string
 	opaqueDefs    map[string]string // opaque spec function -> defining axiom
 	onAlloc       map[string]string
+	onStoreFlag   map[string]string
+	errflow       map[string]*Contract // explicit error-flow contracts (zz_verif_errflow.go, spec/errflow.spec)
+	errflowOrder  []string
 	nonNilGlobals map[*ssa.Global]bool
 	nonNilComps   map[string]bool
 }
@@ -125,7 +128,7 @@ func (e *Engine) stringConst(x *Exec, s string) string {
 }
 
 func loadEngine(repo, verifDir string, patterns []string, overlay map[string][]byte) (*Engine, error) {
-	e := &Engine{repo: repo, verifDir: verifDir, fns: map[string]*ssa.Function{}, contracts: map[string]*Contract{}, specFns: map[string]*SpecFn{}, specConsts: map[string]string{}, ghosts: map[string]string{}, regions: map[string][]string{}, typeIDs: map[string]int{}, so: newSorts(), wsMemo: map[*ssa.Function]*WriteSet{}, wsBusy: map[*ssa.Function]bool{}, allPkgs: map[string]*types.Package{}, rowOps: map[string]bool{}, mapCards: map[string]string{}, strConsts: map[string]int{}, axioms: map[string][]Clause{}, onStore: map[string]string{}, storeFacts: map[string]predApp{}, ghostByValue: map[string]bool{}, named: map[string]string{}, regionAcc: map[string][]string{}, opaqueDefs: map[string]string{}, onAlloc: map[string]string{}}
+	e := &Engine{repo: repo, verifDir: verifDir, fns: map[string]*ssa.Function{}, contracts: map[string]*Contract{}, specFns: map[string]*SpecFn{}, specConsts: map[string]string{}, ghosts: map[string]string{}, regions: map[string][]string{}, typeIDs: map[string]int{}, so: newSorts(), wsMemo: map[*ssa.Function]*WriteSet{}, wsBusy: map[*ssa.Function]bool{}, allPkgs: map[string]*types.Package{}, rowOps: map[string]bool{}, mapCards: map[string]string{}, strConsts: map[string]int{}, axioms: map[string][]Clause{}, onStore: map[string]string{}, storeFacts: map[string]predApp{}, ghostByValue: map[string]bool{}, named: map[string]string{}, regionAcc: map[string][]string{}, opaqueDefs: map[string]string{}, onAlloc: map[string]string{}, onStoreFlag: map[string]string{}, errflow: map[string]*Contract{}}
 	// scratch copy of go.mod/go.sum so that the repository is never written
 	tmp, err := os.MkdirTemp("", "govcmod")
 	if err != nil {
@@ -175,6 +178,17 @@ func loadEngine(repo, verifDir string, patterns []string, overlay map[string][]b
 	// contracts inside the repository packages
 	for _, p := range pkgs {
 		for _, f := range p.CompiledGoFiles {
+			if filepath.Base(f) == "zz_verif_errflow.go" {
+				cts, _, err := parseContractFile(f, p.PkgPath)
+				if err != nil {
+					return nil, err
+				}
+				for _, c := range cts {
+					c.NoSafety = true
+					e.errflow[c.Key] = c
+					e.errflowOrder = append(e.errflowOrder, c.Key)
+				}
+			}
 			if filepath.Base(f) == "zz_verif_contracts.go" {
 				cts, axs, err := parseContractFile(f, p.PkgPath)
 				if err != nil {
@@ -198,6 +212,15 @@ func loadEngine(repo, verifDir string, patterns []string, overlay map[string][]b
 	for _, n := range names {
 		full := filepath.Join(specDir, n)
 		switch {
+		case n == "errflow.spec":
+			cts, _, err := parseContractFile(full, "")
+			if err != nil {
+				return nil, err
+			}
+			for _, c := range cts {
+				c.Assumed = true
+				e.errflow[c.Key] = c
+			}
 		case strings.HasSuffix(n, ".spec"):
 			cts, _, err := parseContractFile(full, "")
 			if err != nil {
@@ -330,7 +353,7 @@ func (e *Engine) loadSpecSMT(path string) error {
 			}
 		case "onstore":
 			// ;@onstore iavl.Node.leftNode ghostset inptr
-			if len(fs) != 4 || fs[2] != "ghostset" {
+			if len(fs) != 4 || (fs[2] != "ghostset" && fs[2] != "ghostflag") {
 				return fmt.Errorf("%s:%d: bad onstore", path, ln+1)
 			}
 			i := strings.LastIndex(fs[1], ".")
@@ -339,7 +362,12 @@ func (e *Engine) loadSpecSMT(path string) error {
 				return fmt.Errorf("%s:%d: unknown type %s", path, ln+1, fs[1][:i])
 			}
 			si := e.so.structInfo(t)
-			e.onStore[e.so.structComp(t)+"."+si.Name+"_"+fs[1][i+1:]] = fs[3]
+			if fs[2] == "ghostflag" {
+				// G[obj] tracks whether obj.field is non-nil (error-flow layer)
+				e.onStoreFlag[e.so.structComp(t)+"."+si.Name+"_"+fs[1][i+1:]] = fs[3]
+			} else {
+				e.onStore[e.so.structComp(t)+"."+si.Name+"_"+fs[1][i+1:]] = fs[3]
+			}
 		case "named":
 			// ;@named iavl.Node namedN — every program value of type *Node is marked (namedN v)
 			t := e.lookupType(fs[1], nil)
@@ -619,8 +647,50 @@ type FuncResult struct {
 }
 
 // verifyFunc generates the obligations of one function.
+// verifyErrflow checks the error-flow contract of a function: a storage
+// failure during the call (ghost fault) must surface in the error result.
+// Data is abstracted: every call havocs the heap.
+func (e *Engine) verifyErrflow(fn *ssa.Function, props []string) *FuncResult {
+	ct := e.errflow[fn.String()]
+	if ct == nil {
+		ct = e.genericErrflow(fn)
+	}
+	if ct == nil {
+		return nil
+	}
+	return e.verifyFuncMode(fn, ct, false, props, true)
+}
+
+// genericErrflow synthesises the generic contract.
+func (e *Engine) genericErrflow(fn *ssa.Function) *Contract {
+	ct := &Contract{Key: fn.String(), Loops: map[int]*LoopSpec{}, NoSafety: true, Props: []string{"C17"}, HasMod: true}
+	for _, p := range fn.Params {
+		ct.Params = append(ct.Params, p.Name())
+	}
+	res := fn.Signature.Results()
+	errIdx := -1
+	for i := 0; i < res.Len(); i++ {
+		ct.Results = append(ct.Results, fmt.Sprintf("r%d", i))
+		if types.Identical(res.At(i).Type(), types.Universe.Lookup("error").Type()) {
+			errIdx = i
+		}
+	}
+	if errIdx >= 0 {
+		ct.Ensures = append(ct.Ensures, Clause{Label: "errflow", Text: fmt.Sprintf("!old(fault) && fault ==> r%d != nil", errIdx), File: "(generic)"})
+	} else {
+		ct.Ensures = append(ct.Ensures, Clause{Label: "nofault", Text: "old(fault) == fault", File: "(generic)"})
+	}
+	ct.Modifies = []string{"fault", "parked"}
+	return ct
+}
+
 func (e *Engine) verifyFunc(fn *ssa.Function, ct *Contract, sweep bool, props []string) (res *FuncResult) {
+	return e.verifyFuncMode(fn, ct, sweep, props, false)
+}
+
+func (e *Engine) verifyFuncMode(fn *ssa.Function, ct *Contract, sweep bool, props []string, errflow bool) (res *FuncResult) {
 	x := e.newExec(fn, ct)
+	x.errflow = errflow
 	x.propsOver = props
 	x.sweep = sweep
 	res = &FuncResult{Func: fn.String(), Contract: ct, Sweep: sweep}
@@ -765,8 +835,11 @@ func (e *Engine) verifyFunc(fn *ssa.Function, ct *Contract, sweep bool, props []
 			// postconditions are proved in order; earlier ones may be used for later ones
 			x.obligeCases("post", lab, cases, "postcondition: "+en.Text, fn.Pos())
 		}
-		if !sweep {
+		if !sweep && !errflow {
 			x.frameCases(ct, posts, st0)
+		}
+		if errflow {
+			x.frameCasesOnly(ct, posts, st0, "G_parked")
 		}
 	}
 	for _, r := range ct.Reveal {
